@@ -517,3 +517,58 @@ def gen_repro_processes(sp, fd, seed):
     sp.prove(outs[0] == outs[1] == outs[2], "the same seed and parameters give different boards in different processes")
     gen = repo.std().gen
     sp.prove(outs[0].strip() == repr(gen.gen_rnd_board(seed, 4, 5, 0.3, 6, fd)), "board differs between this process and a fresh one")
+
+
+# ------------------------------------------------------------------ C11 / C15: the real main() on extreme but legal parameter sets (concrete)
+EXTREMES = [
+    dict(seed=0, width=1, length=1, max_reward=1, pl=5e-324, pt=0.5, pr=0.5, plg=0.5, fd=False),
+    dict(seed=1, width=1, length=3, max_reward=6, pl=1e-17, pt=1e-300, pr=0.9999999999999999, plg=1e-12, fd=True),
+    dict(seed=2 ** 63, width=2, length=1, max_reward=40, pl=0.9999999999999999, pt=0.999999, pr=1e-9, plg=0.5, fd=True),
+    dict(seed=7, width=3, length=2, max_reward=1, pl=2.2250738585072014e-308, pt=0.29, pr=0.57, plg=0.58, fd=False),
+    dict(seed=10 ** 20 + 1, width=1, length=1, max_reward=2, pl=0.5, pt=0.07, pr=0.14, plg=0.28, fd=True),
+]
+
+
+@harness("gen.main_extremes", props=["C11", "C15"], jobs=lambda tier, seed: [dict(k=k) for k in range(len(EXTREMES))], sentinel=True,
+         stubs=["open -> in-memory file", "init_parser -> fixed arguments"],
+         bounds="CONCRETE: 5 accepted parameter sets at the edges of the documented ranges (smallest / largest doubles in (0,1), width 1 "
+                "with force-down, seeds beyond 2^63, max_reward 40)",
+         desc="CONCRETE (not a solver verdict): the real main() accepts every documented parameter set, writes exactly one file, and "
+              "the real reader loads it into game_a, game_b, game_c that pass the solver's validation; the board has the requested shape")
+def gen_main_extremes(sp, k):
+    from .batch import FakeFile
+    e = EXTREMES[k]
+    gen = repo.load("roberta_generator", overrides={"open": FakeFile}, alias="roberta_generator_ext")
+    cr = repo.load("conditionalrewards", overrides={"open": FakeFile}, imports={"tad": repo.std().tad, "reverse_dfs": repo.std().reverse_dfs},
+                   alias="conditionalrewards_ext")
+    a = Args()
+    a.seed, a.width, a.length, a.max_reward = e["seed"], e["width"], e["length"], e["max_reward"]
+    a.prob_loose_tile, a.prob_tile_break, a.prob_robot_break, a.prob_light_break, a.force_down = e["pl"], e["pt"], e["pr"], e["plg"], e["fd"]
+
+    class P:
+        def parse_args(self):
+            return a
+    gen.init_parser = lambda: P()
+    FakeFile.store, FakeFile.opened = {}, []
+    gen.main()
+    sp.prove(len(FakeFile.opened) == 1 and FakeFile.opened[0][1] == "w", "files opened: %s" % FakeFile.opened)
+    name = FakeFile.opened[0][0]
+    sp.prove(name.startswith("inputs/robot_%d_w%d_l%d_r%d_" % (e["seed"], e["width"], e["length"], e["max_reward"])) and
+             name.endswith(("_force_down" if e["fd"] else "") + ".py") and ("_force_down" in name) == e["fd"], "file name %s" % name)
+    d = cr.read_dict_from_file(name)
+    sp.prove(list(d.keys()) == ["game_a", "game_b", "game_c"], "file denotes %s" % list(d.keys()))
+    n_tiles = e["width"] * e["length"]
+    for key, total in (("game_a", 4), ("game_b", 7), ("game_c", 10)):
+        g = d[key]
+        sp.prove(len(g["players"]) == total * n_tiles + 2, "%s has %d states for %d tiles" % (key, len(g["players"]), n_tiles))
+        sg = repo.std().tad.StochasticGame(prune_states=True, **g)
+        sg.check_game()
+        sp.prove(len(sg.init_states()) == len(g["players"]), "%s: a state without transitions" % key)
+        for pl, tr in zip(g["players"], g["transition_list"]):
+            if pl == "Probabilistic":
+                sp.prove(all(p > 0 for p, _ in tr) and abs(sum(p for p, _ in tr) - 1) <= 1e-12, "%s: chance state with probabilities %s" % (key, [p for p, _ in tr]))
+    text = FakeFile.store[name]
+    rows = [ln for ln in text.split("\n") if ln.startswith("#   ")]
+    sp.prove(len(rows) == e["length"] and all(r.count("[") == e["width"] for r in rows), "board picture is not %dx%d" % (e["length"], e["width"]))
+    if e["fd"]:
+        sp.prove(all("|v(" in r for r in rows), "force-down requested but a row has no down-only tile")
